@@ -131,7 +131,9 @@ claim("C11",
       "queued while a slot is free), to thread the state through the same _reduce_tick under the reducer's inductive "
       "invariant (shape of the workflow kept, worker ids legal and distinct), to raise only the documented ValueError "
       "and to leave the caller's state and tick list untouched (no aliasing with the live state); replay_ticks_stream "
-      "reports only an exit command the reducer really emitted.",
+      "reports only an exit command the reducer really emitted. ExternalContext._state (what running_steps() and "
+      "to_dict() report) is proved - over a ghost log of its calls - to be ONE call of rebuild_state_from_ticks on the "
+      "run's initial state and the WHOLE recorded tick log, whose result it returns.",
       "Not a full functional-equality proof: that the loop feeds EVERY tick exactly once and in order is checked by the "
       "loop contract's structure (for-over-list cut at the invariant) but 'result == fold(reduce, ticks)' is not stated "
       "as a ghost fold yet; that the persistence adapter journals every tick it is shown is under contract "
@@ -195,10 +197,13 @@ claim("C14",
       "Where timers live is pinned down by contract: _ControlLoopRunner.process_command is proved to put a delayed retry "
       "and a waiter timeout into the in-memory schedule only (exactly one entry, due at now+delay) and the snapshot "
       "lemma (C12) shows what a reload restores; the clause 'a waiter timeout that has fired is still in effect after a "
-      "reload' fails and is a recorded known finding, reproduced natively on every run.",
-      "The property as a whole (timers re-armed after idle release / restart) concerns idle_release_runtime and "
-      "persistence_runtime, which are not under contract: this check decides only the two facts above and must not be "
-      "read as a proof of C14.",
+      "reload' fails and is a recorded known finding, reproduced natively on every run. "
+      "The idle-release side (shared with C36) is under contract as far as 'a run is only released after it has been "
+      "idle for idle_timeout, and every idle announcement re-stamps idle_since'. The deep copies of worker state are "
+      "proved field by field (the timed-out flag of a waiter survives a copy).",
+      "The property as a whole (timers re-armed after idle release / restart) concerns the reload path of "
+      "idle_release_runtime and persistence_runtime, which is not under contract: this check decides only the facts "
+      "above and must not be read as a proof of C14.",
       category="other")
 
 claim("C24",
